@@ -1315,6 +1315,9 @@ pub fn array_from(
     let _map_fn_guard = map_fn.as_ref().and_then(|m| interp.guard_value(m));
 
     let mut elements = Vec::new();
+    // Collected (mapped) values are only referenced from `elements` until the result array is
+    // built; root them so that collections during later callbacks / next() calls keep them.
+    let elements_guard = interp.heap.create_guard();
 
     match source {
         JsValue::Object(obj) => {
@@ -1344,6 +1347,7 @@ pub fn array_from(
                     } else {
                         elem
                     };
+                    mapped.guard_by(&elements_guard);
                     elements.push(mapped);
                 }
             } else {
@@ -1421,6 +1425,7 @@ pub fn array_from(
                                     } else {
                                         elem
                                     };
+                                    mapped.guard_by(&elements_guard);
                                     elements.push(mapped);
                                     i += 1;
                                 } else {
@@ -1453,6 +1458,7 @@ pub fn array_from(
                 } else {
                     elem
                 };
+                mapped.guard_by(&elements_guard);
                 elements.push(mapped);
             }
         }
